@@ -93,7 +93,9 @@ func VerifC15_new() {
 	if kind != 0 {
 		vAssert(sum == e.H, "C05: the strategic shares sum to HandlersQuantity")
 	}
-	vAssert(vAnd(len(d.actual) == 0, len(d.tactic) == 0), "counters start empty")
+	for _, p := range e.ps {
+		vAssert(d.actual[p] == 0, "C01: nothing is in flight when the discipline is created")
+	}
 	vAssert(d.feedbackLimit >= 1, "feedback limit is at least one")
 	vAssert(vSpawnCount() == 1, "C19: exactly one goroutine is started by New")
 	vAssert(vSpawnedIs(0, "main"), "C19: the goroutine started by New runs main")
